@@ -44,6 +44,10 @@ def gen_case(rng, directed=None):
         t += dt
         if kind == "tick":
             inputs.append({"tick": t})
+            # the session frames an outbound batch right before some ticks: framing is not activity (no model row; the
+            # heartbeat state of the model ignores it) - added after the seeded change C19-framing-counts-as-activity
+            if directed is None and rng.random() < 0.3:
+                inputs[-1]["frame_before"] = t
             trace.append(("tick", t))
         elif kind == "wrote":
             inputs.append({"wrote": 1, "at": t})
